@@ -63,6 +63,7 @@ class Model:
     def __init__(self, lists: Dict[str, List[Dict[str, object]]], calls: Optional[Dict[str, str]] = None, values: Optional[Dict[str, str]] = None, text_filters: Optional[Dict[str, Callable[[str], str]]] = None):
         self.lists, self.calls, self.values = lists, calls or {}, values or {}
         self.text_filters = text_filters or {"to_pascal_case": pascal, "upper": str.upper, "lower": str.lower}
+        self.iter_hook: Optional[Callable[[object], Optional[List[Dict[str, object]]]]] = None  # elements for an iterable the lists do not name (e.g. a call of a template global)
 
 
 def instantiate(t: JTemplate, policy: Optional[Dict[str, bool]] = None, model: Optional[Model] = None) -> str:
@@ -99,8 +100,12 @@ def instantiate(t: JTemplate, policy: Optional[Dict[str, bool]] = None, model: O
                 base = JTemplate.src(e)
             break
         if base not in model.lists:
-            return None
-        els = list(model.lists[base])
+            hooked = model.iter_hook(e) if model.iter_hook is not None else None
+            if hooked is None:
+                return None
+            els = list(hooked)
+        else:
+            els = list(model.lists[base])
         for f in reversed(ops):
             if f.name == "list":
                 continue
